@@ -323,6 +323,8 @@ func (n *fakeNode) armGetLogsFail(skip, count int, pos string) {
 }
 
 func (n *fakeNode) armHold(skip int, pos string) {
+	// a previously held call that was already released must have left its handler before the next hold is armed
+	n.wait(func() bool { return n.held == nil }, waitQuiet, 20*time.Second)
 	n.mu.Lock()
 	n.holdArmed, n.holdSkip, n.glPos = true, skip, pos
 	n.headWhileHeld = false
@@ -514,7 +516,9 @@ func (s *ethSvc) GetLogs(ctx context.Context, q filterArg) ([]ethtypes.Log, erro
 		fail = true
 	}
 	if h != nil {
-		n.held = nil
+		if n.held == h {
+			n.held = nil
+		}
 		headHeld = n.headWhileHeld
 		if n.heldDropped {
 			dropped = true
